@@ -106,4 +106,14 @@ PROPS = {
                 "Pinocchio tick-array loaders (exhaustive); the slot table of the 15 fund-moving accounts structs and 6 Pinocchio prologues is regenerated and checked by `decide`",
         "trusted": ["as C04; the sparse-swap builder's account checks (PDA, ownership) are part of C10's family; token-program-side checks (owner accounts) are Solana's"],
     },
+    "C18": {
+        "lean_modules": ["WP.Props.C18"],
+        "lean_support": ["WP.Props.C09"],
+        "families": [("reset", 30000, 1000000), ("snap", 30000, 1000000), ("bundle", 30000, 1000000)],
+        "rule": "reset: Position::reset_position_range (Anchor) and MemoryMappedPosition::reset_position_range (Pinocchio, keep_owed on/off) on the same serialized "
+                "accounts over all spacings, usable/unusable/out-of-bound ticks, empty and non-empty positions; snap: resolve_one_sided_position_ticks with either/both/no "
+                "sentinel over prices on and between ticks; bundle: open/close op sequences on a real PositionBundle (indexes incl. byte boundaries and >= 256); "
+                "non-trivial = an accepted operation",
+        "trusted": ["mint-one-token-and-drop-authority and freezing are token-program CPIs and are not executed; open_position's own handlers are covered through validate_tick_range only"],
+    },
 }
